@@ -18,6 +18,8 @@ import (
 	"errors"
 	"sync"
 	"sync/atomic"
+
+	"github.com/hydraide/hydraide/app/verifhook"
 )
 
 // Guard is an interface that defines methods for locking and unlocking a Treasure in a thread-safe and
@@ -137,9 +139,15 @@ func (g *guard) StartTreasureGuard(waiting bool, bodyAuthID ...string) (guardID 
 		if len(bodyAuthID) > 0 {
 			g.bodyAuthID = bodyAuthID[0]
 		}
+		if verifhook.Enabled {
+			verifhook.Trace("guard.enq", "g", g, "id", gID, "queue", append([]int64(nil), g.waitForUnlock...))
+		}
 		// Wait while the current guard ID is not the first in the queue
 		for g.waitForUnlock[0] != gID {
 			g.cond.Wait()
+		}
+		if verifhook.Enabled {
+			verifhook.Trace("guard.grant", "g", g, "id", gID, "queue", append([]int64(nil), g.waitForUnlock...))
 		}
 		// Return the guard ID
 		return ID(gID)
@@ -153,8 +161,14 @@ func (g *guard) StartTreasureGuard(waiting bool, bodyAuthID ...string) (guardID 
 			if len(bodyAuthID) > 0 {
 				g.bodyAuthID = bodyAuthID[0]
 			}
+			if verifhook.Enabled {
+				verifhook.Trace("guard.try", "g", g, "id", gID, "queue", append([]int64(nil), g.waitForUnlock...))
+			}
 			// Return the guard ID
 			return ID(gID)
+		}
+		if verifhook.Enabled {
+			verifhook.Trace("guard.try", "g", g, "id", int64(0), "queue", append([]int64(nil), g.waitForUnlock...))
 		}
 	}
 
@@ -177,7 +191,13 @@ func (g *guard) ReleaseTreasureGuard(guardID ID) {
 			atomic.StoreInt64(&g.largestGuardID, 0)
 		}
 		g.cond.Broadcast()
+		if verifhook.Enabled {
+			verifhook.Trace("guard.rel", "g", g, "id", int64(guardID), "popped", true, "queue", append([]int64(nil), g.waitForUnlock...))
+		}
 		return
+	}
+	if verifhook.Enabled {
+		verifhook.Trace("guard.rel", "g", g, "id", int64(guardID), "popped", false, "queue", append([]int64(nil), g.waitForUnlock...))
 	}
 
 }
